@@ -11,6 +11,7 @@ import copy
 import sys
 
 import common
+import gen_update
 import hist
 import histcheck
 import refupdate
@@ -32,6 +33,12 @@ RULE = ('history = 2-14 generated operations, mostly update_one / update_many / 
         '8% of the updates use the positional operator (filter with $elemMatch, path f.$.x; outside '
         'the Lean model, judged on python only): every update_many over >= 2 matches is compared '
         'with one update_one per matched document on a twin collection; '
+        '10% of the operations are a $push with $each and any subset of $position / $sort / $slice '
+        '(bounds around the length of the array) onto arrays of 0-5 numbers or of sub-documents '
+        'ranked by k that are not in order (4% of the operations insert such documents), so that '
+        'the modifiers really reorder and cut; 60% of all modifier documents (also those with an '
+        'unrecognized clause among valid ones) are spelled in a shuffled key order - the order in '
+        'which the modifiers appear is immaterial: insert at $position, then $sort, then $slice; '
         'non-trivial = an update that changes a document through a dotted path or an array '
         'operator; distinct = by hash of the history')
 ASSUMPTIONS = [
@@ -73,7 +80,69 @@ class Gen02(hist.HistGen):
                           {'$set': {f + '.$': {'k': 9, 'v': 9}}},
                           {'$min': {f + '.$.k': 0}, '$set': {'c': 5}}])
             return [r.choice(['update_many', 'update_many', 'update_one']), filt, u, False]
+        if x < 0.17:
+            # documents with an array the $push modifiers can reorder and cut: numbers, or
+            # sub-documents ranked by k, several elements, not in order
+            ds = []
+            for _ in range(r.choice([1, 2, 3])):
+                d = {}
+                for f in r.sample(RANKED_FIELDS, r.choice([1, 1, 2])):
+                    d[f] = self.ranked_array(r.choice(['num', 'num', 'doc']))
+                d['c'] = r.choice([1, 2])
+                if r.random() < 0.5:
+                    d = dict([('_id', copy.deepcopy(r.choice(self.ids)))] + list(d.items()))
+                ds.append(d)
+            self.shadow.extend(copy.deepcopy(ds))
+            return ['insert_many', ds, False]
+        if x < 0.27:
+            # $push with $each and any of $position / $sort / $slice, spelled in any order, onto
+            # such an array (what the shadow says the field holds decides what is pushed)
+            held = [(d, f) for d in self.shadow for f in RANKED_FIELDS
+                    if ranked_kind(d.get(f)) is not None]
+            if held:
+                d, f = r.choice(held)
+                kind = ranked_kind(d[f])
+                y = r.random()
+                if y < 0.35 and '_id' in d:
+                    filt = {'_id': copy.deepcopy(d['_id'])}
+                elif y < 0.6:
+                    filt = {'c': d.get('c', 1)}
+                elif y < 0.75:
+                    filt = {f: {'$exists': True}}
+                else:
+                    filt = {}
+                u = {'$push': {f: self.ug.ranked_push(kind, len(d[f]))}}
+                if r.random() < 0.2:
+                    k2, b2 = self.ug.operator(d)
+                    if k2 != '$push':
+                        u = dict([(k2, b2)] + list(u.items())) if r.random() < 0.5 else \
+                            dict(list(u.items()) + [(k2, b2)])
+                return [r.choice(['update_one', 'update_one', 'update_many']), filt, u,
+                        r.random() < 0.1]
         return hist.HistGen.op(self)
+
+    def ranked_array(self, kind):
+        r = self.r
+        n = r.choice([0, 1, 2, 3, 3, 4, 5])
+        if kind == 'num':
+            return [r.choice(gen_update.RANKS) for _ in range(n)]
+        return [{'k': r.choice(gen_update.RANKS), 'v': r.choice([0, 5, 'x'])} for _ in range(n)]
+
+
+RANKED_FIELDS = ['a', 'b', 'd']
+
+
+def ranked_kind(v):
+    """'num' for an array of numbers, 'doc' for an array of sub-documents with a numeric k"""
+    def num(x):
+        return isinstance(x, (int, float)) and not isinstance(x, bool)
+    if not isinstance(v, list) or not v:
+        return None
+    if all(num(x) for x in v):
+        return 'num'
+    if all(isinstance(x, dict) and num(x.get('k')) for x in v):
+        return 'doc'
+    return None
 
 
 def histgen(rng, oids):
@@ -82,6 +151,7 @@ def histgen(rng, oids):
         delete_one=1, delete_many=0, find=0, count=0, distinct=0, create_index=0,
         drop_index=0, drop_indexes=0, drop=0), ttl=False)
     hg.ug.malformed = 0.03
+    hg.ug.respell = 0.6
     return hg
 
 
